@@ -72,6 +72,23 @@ impl<'a> Sx<'a> {
         self.out.emit("g.hist", &o);
     }
 
+    /// custom metadata before an export (`games.rs: as_pgn`, the non-primary keys): well-formed tags round-trip, a value with a
+    /// character outside the importer's value class (`'`) is silently dropped by the import - model and code must agree on both
+    fn tags(&mut self, variant: usize) {
+        const SETS: [&[(&str, &str)]; 4] = [
+            &[("White", "Kasparov, Garry"), ("Black", "Deep Blue"), ("Event", "IBM Man-Machine"), ("Site", "New York, NY USA"),
+              ("Date", "1997.05.11"), ("Round", "6"), ("ECO", "B17"), ("Annotator", "x"), ("TimeControl", "40/7200:3600")],
+            &[("Opening", "Queen's Gambit"), ("White", "A"), ("Zeta", "z"), ("alpha", "a"), ("Eve", "e")],
+            &[("Event", ""), ("Note", "two  spaces\tand a tab"), ("_x", "1/2-1/2"), ("X9", "?")],
+            &[("Result", "1-0")],
+        ];
+        for (k, v) in SETS[variant % 4].iter() {
+            let o = self.sess.op_tag(k, v);
+            self.out.stats.inc("pgn.custom_tags_set");
+            self.out.emit(&format!("g.tag {} {}", hex(k), hex(v)), &o);
+        }
+    }
+
     fn pgn(&mut self) {
         let o = self.sess.op_pgn();
         let rt = o.rsplit("rt=").next().unwrap_or("").to_string();
@@ -492,6 +509,9 @@ pub fn pgn(tier: usize, seed: u64, out: &mut Out) {
             if !sx.start(&start) {
                 continue;
             }
+            if gi % 3 == 1 {
+                sx.tags(gi / 3);
+            }
             sx.out.stats.inc("pgn.base_games");
             for _ in 0..target {
                 if sx.finished() {
@@ -538,6 +558,9 @@ pub fn pgn(tier: usize, seed: u64, out: &mut Out) {
             let mut sx = Sx::new(out);
             if !sx.start(&start) {
                 break;
+            }
+            if gi % 3 == 1 {
+                sx.tags(gi / 3);
             }
             sx.out.stats.inc(&format!("pgn.variant_{name}"));
             for m in &moves {
